@@ -2,6 +2,8 @@ import ImathVerif.Lemmas.C12Wrap
 import ImathVerif.Lemmas.C12Post
 import ImathVerif.Lemmas.C12Angles
 import ImathVerif.Lemmas.C12Eigen
+import ImathVerif.Lemmas.C12EigenAngles
+import ImathVerif.Lemmas.C12Total
 import Mathlib.Analysis.SpecialFunctions.Complex.Arg
 import Mathlib.Analysis.SpecialFunctions.Sqrt
 /-!
@@ -82,6 +84,43 @@ theorem M44_extractAndRemoveScalingAndShear_degenerate {tmin tmax : α} {sqrt : 
     · exact px h1
     · exact py h1
     · exact pz h1
+
+/-- "degenerate input is reported RATHER THAN decomposed", both directions (2-D): with `1 < numeric_limits<T>::max ()` the function
+returns `true` EXACTLY on the matrices whose linear part is non-singular.  In exact arithmetic the overflow guards of
+`checkForZeroScaleInRow` fire only for a zero scale (each guarded scale dominates the row it guards), so no well-conditioned —
+indeed no non-singular — input is rejected; together with the recomposition theorem this makes the property unconditional. -/
+theorem M33_extractAndRemoveScalingAndShear_succeeds_iff {tmin tmax : α} {sqrt : α → α} (hs : SqrtSpec sqrt) (ht : 1 < tmax) (m : M33 α) :
+    (ear33 tmax (Gen.V2.length tmin tmax sqrt) m).isSome ↔ (lin2 m).det ≠ 0 := by
+  constructor
+  · intro h hd
+    rw [M33_extractAndRemoveScalingAndShear_degenerate hs hd] at h
+    simp at h
+  · exact ear33_isSome_of_det ht (V2_length_spec hs)
+
+/-- the same in 3-D -/
+theorem M44_extractAndRemoveScalingAndShear_succeeds_iff {tmin tmax : α} {sqrt : α → α} (hs : SqrtSpec sqrt) (ht : 1 < tmax) (m : M44 α) :
+    (ear44 tmax (Gen.V3.length tmin tmax sqrt) m).isSome ↔ (lin3 m).det ≠ 0 := by
+  constructor
+  · intro h hd
+    rw [M44_extractAndRemoveScalingAndShear_degenerate hs hd] at h
+    simp at h
+  · exact ear44_isSome_of_det ht (V3_length_spec hs)
+
+/-- `= none ↔ det = 0` (the form of the audit) -/
+theorem extractAndRemoveScalingAndShear_none_iff {tmin tmax : α} {sqrt : α → α} (hs : SqrtSpec sqrt) (ht : 1 < tmax) (m3 : M33 α) (m4 : M44 α) :
+    (ear33 tmax (Gen.V2.length tmin tmax sqrt) m3 = none ↔ (lin2 m3).det = 0) ∧
+    (ear44 tmax (Gen.V3.length tmin tmax sqrt) m4 = none ↔ (lin3 m4).det = 0) := by
+  constructor
+  · rw [← not_iff_not, ← ne_eq, Option.ne_none_iff_isSome]
+    exact M33_extractAndRemoveScalingAndShear_succeeds_iff hs ht m3
+  · rw [← not_iff_not, ← ne_eq, Option.ne_none_iff_isSome]
+    exact M44_extractAndRemoveScalingAndShear_succeeds_iff hs ht m4
+
+/-- non-vacuity of `1 < max` and of a non-singular input: over ℝ with any `max > 1` the 3-4-5 witness has determinant 1 -/
+theorem nonvacuity_succeeds : (lin2 (W345 : M33 ℝ)).det ≠ 0 ∧ (1 : ℝ) < 2 := by
+  constructor
+  · simp [lin2, W345, Matrix.det_fin_two]; norm_num
+  · norm_num
 
 /-! ## A.2 `checkForZeroScaleInRow` (T-route; the hand model uses the same guard) -/
 
@@ -227,6 +266,22 @@ theorem M33_extractSHRT_recompose {tmin tmax : α} {sqrt sin cos : α → α} {a
     rw [M33_extractEuler_rotation hs ht ho hd]
     exact homog2 ha e
 
+
+/-- UNCONDITIONAL form (2-D): for every affine `M` with non-singular linear part (and `1 < max`) `extractSHRT` returns true and
+`scale * shear * rotation * translation = M`; for a singular linear part it returns false -/
+theorem M33_extractSHRT_total {tmin tmax : α} {sqrt sin cos : α → α} {atan2 : α → α → α}
+    (hs : SqrtSpec sqrt) (ht : TrigSpec sin cos atan2) (h1 : 1 < tmax) {m : M33 α} (ha : Affine2 m) :
+    ((lin2 m).det ≠ 0 → ∃ s h rot t, Gen.M33.extractSHRT tmin tmax sqrt atan2 m = (true, s, h, rot, t) ∧
+      scaleH2 s * shearH2 h * rotH2 (cos rot) (sin rot) * transH2 t = m.toMat) ∧
+    ((lin2 m).det = 0 → (Gen.M33.extractSHRT tmin tmax sqrt atan2 m).1 = false) := by
+  constructor
+  · intro hd
+    obtain ⟨r, he⟩ := Option.isSome_iff_exists.mp ((M33_extractAndRemoveScalingAndShear_succeeds_iff (tmin := tmin) hs h1 m).mpr hd)
+    have e : Gen.M33.extractSHRT tmin tmax sqrt atan2 m = (true, r.scl, r.shr, Gen.M33.extractEuler tmin tmax sqrt atan2 r.m, ⟨m.x20, m.x21⟩) := by
+      rw [M33_extractSHRT, he]
+    exact ⟨_, _, _, _, e, M33_extractSHRT_recompose hs ht ha e⟩
+  · intro hd
+    rw [M33_extractSHRT, M33_extractAndRemoveScalingAndShear_degenerate hs hd]
 
 /-- `removeScaling (Matrix33)` is `sansScaling` plus the success flag (`m` unchanged on failure) -/
 theorem M33_removeScaling (tmin tmax : α) (sqrt sin cos : α → α) (atan2 : α → α → α) (m : M33 α) :
@@ -678,6 +733,65 @@ theorem jacobiRotation_parameters {α : Type} [CommRing α] {p : EigAngles α} {
 example : EigDiag (⟨3/4, 4/5, 3/5, 1/3⟩ : EigAngles ℚ) 0 12 7 :=
   eigDiag_of (by norm_num) (by norm_num) (by norm_num) (by norm_num)
 
+/-- the parameters that `jacobiRotation` COMPUTES from the block `[[x, y], [y, z]]` with tolerance 0 (`rho = (z - x)/(2y)`,
+`t = sign(rho)/(|rho| + sqrt (1 + rho²))`, `c = 1/sqrt (1 + t²)`, `s = t*c` in the 3×3 body / `c*t` in the 4×4 body (`cs`),
+`tau = s/(1 + c)`) satisfy `EigDiag`; the early exit happens only when `y = 0`.  (The analogue of
+`twoSidedJacobiRotation_computed_parameters`: a slip such as `rho = mu2/mu1`, `tau = s/(1 - c)` or `h = -t*y` breaks this theorem.) -/
+theorem jacobiRotation_computed_parameters {sqrt : α → α} (hs : SqrtSpec sqrt) (cs : Bool) (x y z : α) :
+    (∀ p, eigAngles 0 sqrt cs x y z = some p → EigDiag p x y z) ∧ (eigAngles 0 sqrt cs x y z = none → y = 0) :=
+  eigAngles_diag hs cs x y z
+
+/-- so with tolerance 0 the WHOLE rotation of the eigen solver (parameters computed from the matrix) is an orthogonal similarity -/
+theorem jacobiRotation_tol0 {sqrt : α → α} (hs : SqrtSpec sqrt) (j k : Nat) (hjk : j < k) (st : EigState α) :
+    (k < 3 → toM 3 (jacobiRotation 0 sqrt 3 j k st).2.V * symM 3 (jacobiRotation 0 sqrt 3 j k st).2.A * (toM 3 (jacobiRotation 0 sqrt 3 j k st).2.V)ᵀ =
+        toM 3 st.V * symM 3 st.A * (toM 3 st.V)ᵀ ∧
+      toM 3 (jacobiRotation 0 sqrt 3 j k st).2.V * (toM 3 (jacobiRotation 0 sqrt 3 j k st).2.V)ᵀ = toM 3 st.V * (toM 3 st.V)ᵀ) ∧
+    (k < 4 → toM 4 (jacobiRotation 0 sqrt 4 j k st).2.V * symM 4 (jacobiRotation 0 sqrt 4 j k st).2.A * (toM 4 (jacobiRotation 0 sqrt 4 j k st).2.V)ᵀ =
+        toM 4 st.V * symM 4 st.A * (toM 4 st.V)ᵀ ∧
+      toM 4 (jacobiRotation 0 sqrt 4 j k st).2.V * (toM 4 (jacobiRotation 0 sqrt 4 j k st).2.V)ᵀ = toM 4 st.V * (toM 4 st.V)ᵀ) :=
+  jacobiRotation_tol0_invariant hs j k hjk st
+
+/-- any number of sweeps of the eigen solver (any list of index pairs `j < k < n`) with tolerance 0 preserves
+`V·sym(A)·Vᵀ` and `V·Vᵀ`; started from `V = 1`: `V·sym(A')·Vᵀ = sym(A)`, `V` orthogonal -/
+theorem jacobiEigenSolver_sweeps_tol0_invariant3 {sqrt : α → α} (hs : SqrtSpec sqrt) (pairs : List (Nat × Nat))
+    (hp : ∀ jk ∈ pairs, jk.1 < jk.2 ∧ jk.2 < 3) (st : EigState α) :
+    toM 3 (runEigPairs sqrt 3 st pairs).V * symM 3 (runEigPairs sqrt 3 st pairs).A * (toM 3 (runEigPairs sqrt 3 st pairs).V)ᵀ =
+      toM 3 st.V * symM 3 st.A * (toM 3 st.V)ᵀ ∧
+    toM 3 (runEigPairs sqrt 3 st pairs).V * (toM 3 (runEigPairs sqrt 3 st pairs).V)ᵀ = toM 3 st.V * (toM 3 st.V)ᵀ := by
+  induction pairs generalizing st with
+  | nil => exact ⟨rfl, rfl⟩
+  | cons jk rest ih =>
+    have h := hp jk (List.mem_cons_self ..)
+    obtain ⟨a, b⟩ := (jacobiRotation_tol0_invariant hs jk.1 jk.2 h.1 st).1 h.2
+    obtain ⟨a', b'⟩ := ih (fun q hq => hp q (List.mem_cons_of_mem _ hq)) (jacobiRotation 0 sqrt 3 jk.1 jk.2 st).2
+    exact ⟨a'.trans a, b'.trans b⟩
+theorem jacobiEigenSolver_sweeps_tol0_invariant4 {sqrt : α → α} (hs : SqrtSpec sqrt) (pairs : List (Nat × Nat))
+    (hp : ∀ jk ∈ pairs, jk.1 < jk.2 ∧ jk.2 < 4) (st : EigState α) :
+    toM 4 (runEigPairs sqrt 4 st pairs).V * symM 4 (runEigPairs sqrt 4 st pairs).A * (toM 4 (runEigPairs sqrt 4 st pairs).V)ᵀ =
+      toM 4 st.V * symM 4 st.A * (toM 4 st.V)ᵀ ∧
+    toM 4 (runEigPairs sqrt 4 st pairs).V * (toM 4 (runEigPairs sqrt 4 st pairs).V)ᵀ = toM 4 st.V * (toM 4 st.V)ᵀ := by
+  induction pairs generalizing st with
+  | nil => exact ⟨rfl, rfl⟩
+  | cons jk rest ih =>
+    have h := hp jk (List.mem_cons_self ..)
+    obtain ⟨a, b⟩ := (jacobiRotation_tol0_invariant hs jk.1 jk.2 h.1 st).2 h.2
+    obtain ⟨a', b'⟩ := ih (fun q hq => hp q (List.mem_cons_of_mem _ hq)) (jacobiRotation 0 sqrt 4 jk.1 jk.2 st).2
+    exact ⟨a'.trans a, b'.trans b⟩
+
+/-- the accumulator `Z` of a rotation tracks the change of the diagonal of `A`, so that the end-of-sweep update
+`S[i] += Z[i]; A[i][i] = S[i]` keeps the returned eigenvalues `S` equal to the diagonal of the rotated matrix -/
+theorem jacobiRotation_Z_tracks_diagonal {β : Type} [CommRing β] (n j k : Nat) (hjk : j < k) (p : EigAngles β) (st : EigState β) (i : Nat) :
+    (eigApply n j k p st).A i i - st.A i i = (eigApply n j k p st).Z i - st.Z i :=
+  eigApply_Z_tracks_diagonal n j k hjk p st i
+
+/-- non-vacuity: over ℝ the block `[[0, 12], [12, 7]]` is not an early exit and its computed parameters satisfy `EigDiag` -/
+theorem nonvacuity_eigAngles : ∃ p, eigAngles (0 : ℝ) Real.sqrt false 0 12 7 = some p ∧ EigDiag p (0 : ℝ) 12 7 := by
+  have hsr : SqrtSpec Real.sqrt := fun x hx => ⟨Real.sqrt_nonneg x, Real.mul_self_sqrt hx⟩
+  obtain ⟨h1, h2⟩ := eigAngles_diag hsr false (0 : ℝ) 12 7
+  cases h : eigAngles (0 : ℝ) Real.sqrt false 0 12 7 with
+  | none => exact absurd (h2 h) (by norm_num)
+  | some p => exact ⟨p, rfl, h1 p h⟩
+
 /-! ### post-passes: sign fix-up, sorting, forcePositiveDeterminant preserve `U·diag(S)·Vᵀ`, `U·Uᵀ`, `V·Vᵀ` -/
 
 /-- 3×3: after sign fix-up and the two bubble passes the product and the Gram matrices are unchanged,
@@ -685,9 +799,12 @@ the singular values are non-negative and descending -/
 theorem jacobiSVD_post3 (t : USV α) :
     Same 3 (post3 t) t ∧ (post3 t).S 0 ≥ (post3 t).S 1 ∧ (post3 t).S 1 ≥ (post3 t).S 2 ∧ (post3 t).S 2 ≥ 0 :=
   ⟨post3_same t, post3_sorted t⟩
-/- FULL statement for 4×4: as for 3×3 with four values (insertion sort on |S|).
-   Proved: the product and the Gram matrices are preserved (any outcome of the comparisons).  The descending order
-   of the four values is measured (c12_residue), not proved. -/
+/-- 4×4: the same with four values (sign fix-up, three insertions on `|S|`): product and Gram matrices preserved, the singular
+values non-negative and descending -/
+theorem jacobiSVD_post4 (t : USV α) :
+    Same 4 (post4 t) t ∧ (post4 t).S 0 ≥ (post4 t).S 1 ∧ (post4 t).S 1 ≥ (post4 t).S 2 ∧ (post4 t).S 2 ≥ (post4 t).S 3 ∧ (post4 t).S 3 ≥ 0 :=
+  ⟨post4_same t, post4_sorted t⟩
+/-- (kept under its former name: the part of `jacobiSVD_post4` that needs no order) -/
 theorem jacobiSVD_post4_partial (t : USV α) : Same 4 (post4 t) t := post4_same t
 /-- forcePositiveDeterminant: flipping the last column of `U` (resp. `V`) together with the last singular value
 preserves the product and orthogonality; only the LAST singular value can change sign -/
@@ -699,6 +816,32 @@ theorem jacobiSVD_forcePositiveDeterminant (dU dV : α) (t : USV α) :
     simp only [forcePos]
     split_ifs <;> simp [hc]
 
+/-- `forcePositiveDeterminant`, determinants: the flip of the last column multiplies `det U` (resp. `det V`) by `-1` exactly when
+the determinant passed in is negative; so with `dU = det U ≠ 0`, `dV = det V ≠ 0` (what the C++ passes: `U.determinant ()`,
+`V.determinant ()`, tied by the correspondence) both determinants are POSITIVE afterwards — 3×3 and 4×4 -/
+theorem jacobiSVD_forcePositiveDeterminant_det (t : USV α) :
+    ((toM 3 t.U).det ≠ 0 → 0 < (toM 3 (forcePos 2 (toM 3 t.U).det (toM 3 t.V).det t).U).det) ∧
+    ((toM 3 t.V).det ≠ 0 → 0 < (toM 3 (forcePos 2 (toM 3 t.U).det (toM 3 t.V).det t).V).det) ∧
+    ((toM 4 t.U).det ≠ 0 → 0 < (toM 4 (forcePos 3 (toM 4 t.U).det (toM 4 t.V).det t).U).det) ∧
+    ((toM 4 t.V).det ≠ 0 → 0 < (toM 4 (forcePos 3 (toM 4 t.U).det (toM 4 t.V).det t).V).det) := by
+  have key : ∀ d : α, d ≠ 0 → 0 < (if d < 0 then (-1 : α) else 1) * d := by
+    intro d hd
+    split_ifs with h
+    · linarith
+    · rw [one_mul]; exact lt_of_le_of_ne (not_lt.mp h) (Ne.symm hd)
+  refine ⟨fun h => ?_, fun h => ?_, fun h => ?_, fun h => ?_⟩
+  · rw [(forcePos_det3 _ _ t).1]; exact key _ h
+  · rw [(forcePos_det3 _ _ t).2]; exact key _ h
+  · rw [(forcePos_det4 _ _ t).1]; exact key _ h
+  · rw [(forcePos_det4 _ _ t).2]; exact key _ h
+/-- for ANY determinants passed in: the effect on `det U`, `det V` -/
+theorem jacobiSVD_forcePositiveDeterminant_sign (dU dV : α) (t : USV α) :
+    (toM 3 (forcePos 2 dU dV t).U).det = (if dU < 0 then -1 else 1) * (toM 3 t.U).det ∧
+    (toM 3 (forcePos 2 dU dV t).V).det = (if dV < 0 then -1 else 1) * (toM 3 t.V).det ∧
+    (toM 4 (forcePos 3 dU dV t).U).det = (if dU < 0 then -1 else 1) * (toM 4 t.U).det ∧
+    (toM 4 (forcePos 3 dU dV t).V).det = (if dV < 0 then -1 else 1) * (toM 4 t.V).det :=
+  ⟨(forcePos_det3 dU dV t).1, (forcePos_det3 dU dV t).2, (forcePos_det4 dU dV t).1, (forcePos_det4 dU dV t).2⟩
+
 /-- `maxEigenVector` / `minEigenVector` select the index of the eigenvalue of largest / smallest ABSOLUTE value
 (first one on ties) -/
 theorem maxEigenVector_index3 (S : Nat → α) :
@@ -709,6 +852,15 @@ theorem minEigenVector_index3 (S : Nat → α) :
     |S (minIdx 3 S)| ≤ |S 0| ∧ |S (minIdx 3 S)| ≤ |S 1| ∧ |S (minIdx 3 S)| ≤ |S 2| ∧ minIdx 3 S < 3 := by
   simp only [minIdx, List.range, List.range.loop, List.foldl, sabs_eq_abs, if_true, one_ne_zero, if_false, OfNat.ofNat_ne_zero]
   split_ifs with h1 h2 h3 <;> (refine ⟨?_, ?_, ?_, ?_⟩ <;> first | linarith | norm_num)
+
+theorem maxEigenVector_index4 (S : Nat → α) :
+    |S (maxIdx 4 S)| ≥ |S 0| ∧ |S (maxIdx 4 S)| ≥ |S 1| ∧ |S (maxIdx 4 S)| ≥ |S 2| ∧ |S (maxIdx 4 S)| ≥ |S 3| ∧ maxIdx 4 S < 4 := by
+  simp only [maxIdx, List.range, List.range.loop, List.foldl, sabs_eq_abs, if_true, one_ne_zero, if_false, OfNat.ofNat_ne_zero]
+  split_ifs <;> (refine ⟨?_, ?_, ?_, ?_, ?_⟩ <;> first | linarith | norm_num)
+theorem minEigenVector_index4 (S : Nat → α) :
+    |S (minIdx 4 S)| ≤ |S 0| ∧ |S (minIdx 4 S)| ≤ |S 1| ∧ |S (minIdx 4 S)| ≤ |S 2| ∧ |S (minIdx 4 S)| ≤ |S 3| ∧ minIdx 4 S < 4 := by
+  simp only [minIdx, List.range, List.range.loop, List.foldl, sabs_eq_abs, if_true, one_ne_zero, if_false, OfNat.ofNat_ne_zero]
+  split_ifs <;> (refine ⟨?_, ?_, ?_, ?_, ?_⟩ <;> first | linarith | norm_num)
 
 /-! ## The hypotheses are satisfiable (non-vacuity) -/
 
